@@ -36,7 +36,11 @@
 #define BL_REGION_JSON "[[8,16]]"
 #endif
 
-static const long long SAT = 1ll << 30;      // addresses / sizes are logged saturated (TLC integers are 32 bit)
+// trace.hpp defines the sanitizer hooks inline: take their addresses so that they are emitted and the
+// sanitizer runtime finds them (a report then becomes a {"e":"Crash"} event instead of a silent exit)
+void (* const volatile verif_keep_hooks[])() = { &__asan_on_error, &__ubsan_on_report };
+
+static const long long SAT = 1ll << 29;      // addresses / sizes are logged saturated (TLC integers are 32 bit)
 static long long sat( std::uintptr_t v ) { return v > (std::uintptr_t)SAT ? SAT : (long long)v; }
 
 struct effect { const char* k; std::uintptr_t a; std::size_t n; std::vector< std::uint8_t > d; };
